@@ -54,6 +54,7 @@ def _empty_result():
         "harness_error": None,
         "budget_hit": False,
         "exhaustive": None,
+        "nt_extra": 0,
     }
 
 
@@ -188,6 +189,7 @@ def merge(results):
         for k, v in r["notes"].items():
             out["notes"][k] = out["notes"].get(k, 0) + v
         out["budget_hit"] = out["budget_hit"] or r["budget_hit"]
+        out["nt_extra"] += int(r.get("nt_extra", 0))
         if r["failure"] and (out["failure"] is None or len(canon(r["failure"]["case"])) < len(canon(out["failure"]["case"]))):
             out["failure"] = r["failure"]
         if r["harness_error"] and not out["harness_error"]:
@@ -229,7 +231,7 @@ def replay_case(mod, prop, case, exclude_known=False):
 def write_evidence(prop, mod, tier, seed, merged, wall, violations, extra):
     cov = {
         "evaluations": int(merged["evaluations"]),
-        "distinct_nontrivial": int(len(merged["nontrivial"])),
+        "distinct_nontrivial": int(len(merged["nontrivial"]) + merged.get("nt_extra", 0)),
         "rule": mod.RULE,
         "samples": merged["samples"],
         "class_histogram": dict(sorted(merged["classes"].items())),
@@ -384,7 +386,7 @@ def main(argv=None):
         print(line)
     print(
         f"{prop} {tier} seed={seed}: evaluations={merged['evaluations']} "
-        f"distinct_nontrivial={len(merged['nontrivial'])} excluded={merged['excluded']} "
+        f"distinct_nontrivial={len(merged['nontrivial']) + merged.get('nt_extra', 0)} excluded={merged['excluded']} "
         f"wall={wall:.1f}s budget_hit={merged['budget_hit']}"
     )
     for line in printed:
